@@ -32,7 +32,12 @@ class _Range:
 
 
 FEEDBACK = [RTCRtcpFeedback(type="nack"), RTCRtcpFeedback(type="nack", parameter="pli"), RTCRtcpFeedback(type="goog-remb"), RTCRtcpFeedback(type="ccm", parameter="fir")]
-MIMES = ["video/VP8", "video/H264", "video/rtx", "video/AV1X", "VIDEO/vp8"]
+MIMES = ["video/VP8", "video/H264", "video/rtx", "video/AV1X", "VIDEO/vp8", "video/RTX"]
+
+
+def _is_rtx(c):
+    """Encoding names are case-insensitive (RFC 4566); the oracle does not rely on the code's own is_rtx."""
+    return c.mimeType.lower().endswith("/rtx")
 H264_FMTP = [
     {},
     {"profile-level-id": "42001f", "packetization-mode": "1", "level-asymmetry-allowed": "1"},
@@ -67,11 +72,11 @@ def _remote_codec(ctx, i):
     clock = ctx.choice("c%d_clock" % i, [90000, 8000])
     pt = ctx.int("c%d_pt" % i, 0, 127)
     params = {}
-    if mime == "video/rtx":
+    if mime.lower() == "video/rtx":
         params = {"apt": ctx.int("c%d_apt" % i, 0, 127)}
     elif mime.lower() == "video/h264":
         params = dict(ctx.choice("c%d_fmtp" % i, H264_FMTP))
-    fb = [f for j, f in enumerate(FEEDBACK) if ctx.choice("c%d_fb%d" % (i, j), [False, True])] if mime != "video/rtx" else []
+    fb = [f for j, f in enumerate(FEEDBACK) if ctx.choice("c%d_fb%d" % (i, j), [False, True])] if mime.lower() != "video/rtx" else []
     return RTCRtpCodecParameters(mimeType=mime, clockRate=clock, payloadType=pt, rtcpFeedback=fb, parameters=params)
 
 
@@ -100,7 +105,7 @@ def h_codecs(ctx, n):
             if r.mimeType.lower() != c.mimeType.lower() or r.clockRate != c.clockRate:
                 continue
             dyn = bool(sx.And(r.payloadType >= 96, r.payloadType <= 127))
-            if pc.is_rtx(c):
+            if _is_rtx(c):
                 if bool(sx.eq(c.payloadType, r.payloadType)) and bool(sx.eq(c.parameters.get("apt"), r.parameters.get("apt"))):
                     idx = i
                     break
@@ -112,7 +117,7 @@ def h_codecs(ctx, n):
             continue
         last = idx
         r = remote[idx]
-        if pc.is_rtx(c):
+        if _is_rtx(c):
             ctx.check(any(bool(sx.eq(c.parameters["apt"], p)) for p in selected_pts), "rtx-only-next-to-its-selected-base-codec")
         else:
             for f in c.rtcpFeedback:
@@ -122,8 +127,8 @@ def h_codecs(ctx, n):
         selected_pts.append(c.payloadType)
     # completeness: an offered codec that a local codec is compatible with is selected
     for i, r in enumerate(remote):
-        if not pc.is_rtx(r) and any(pc.is_codec_compatible(l, r) for l in local):
-            ctx.check(any(c.mimeType.lower() == r.mimeType.lower() and not pc.is_rtx(c) for c in common), "compatible-offered-codec-is-selected")
+        if not _is_rtx(r) and any(pc.is_codec_compatible(l, r) for l in local):
+            ctx.check(any(c.mimeType.lower() == r.mimeType.lower() and not _is_rtx(c) for c in common), "compatible-offered-codec-is-selected")
     ctx.observe("n", len(common))
 
 
@@ -137,13 +142,13 @@ def h_preferences(ctx, which):
     if not pref:
         ctx.check(out == list(codecs), "no-preference-keeps-everything")
         return
-    rtx_enabled = any(pc.is_rtx(p) for p in pref)
+    rtx_enabled = any(_is_rtx(p) for p in pref)
     base_pts = []
     for c in out:
-        if pc.is_rtx(c):
+        if _is_rtx(c):
             ctx.check(rtx_enabled and c.parameters["apt"] in base_pts, "rtx-only-for-a-preferred-base-and-when-enabled")
         else:
-            ctx.check(any(p.mimeType.lower() == c.mimeType.lower() and p.parameters == c.parameters for p in pref if not pc.is_rtx(p)), "result-within-preferences")
+            ctx.check(any(p.mimeType.lower() == c.mimeType.lower() and p.parameters == c.parameters for p in pref if not _is_rtx(p)), "result-within-preferences")
             base_pts.append(c.payloadType)
     ctx.observe("n", len(out))
 
@@ -232,7 +237,7 @@ def h_offer_answer(ctx, noffer, nanswer, data, policies=(0, 0), followup=None):
             for c in am.rtp.codecs:
                 o = offered.get(c.payloadType)
                 ctx.check(o is not None and o.mimeType.lower() == c.mimeType.lower() and o.clockRate == c.clockRate, "answer-codec-was-offered-with-that-payload-type")
-                if pc.is_rtx(c):
+                if _is_rtx(c):
                     ctx.check(c.parameters.get("apt") in sel_pts, "answer-rtx-only-next-to-its-base")
                 elif o is not None:
                     for f in c.rtcpFeedback:
